@@ -1,3 +1,4 @@
+#[cfg(not(feature = "cosmian_cover_crypt_verif"))]
 use std::{
     borrow::Borrow,
     collections::{
@@ -6,6 +7,14 @@ use std::{
     },
     fmt::Debug,
     hash::Hash,
+};
+#[cfg(feature = "cosmian_cover_crypt_verif")]
+use {
+    crate::verif_model::collections::{
+        hash_map::{Entry, OccupiedEntry, VacantEntry},
+        HashMap,
+    },
+    std::{borrow::Borrow, collections::LinkedList, fmt::Debug, hash::Hash},
 };
 
 /// A `RevisionMap` is a `HashMap` which keys are mapped to sequences of values.
